@@ -584,6 +584,11 @@ def _build_and_run(tier, seed, profiles, decls_override=None):
                     real[it.name] = rustexpr.body_sexpr(it.body)
                 except Exception as e:  # noqa
                     real[it.name] = "(opaque parse-error %s)" % str(e).replace("(", "[").replace(")", "]")
+        # a `set_x` that forwards to `with_x` with its own parameters has `with_x`'s body
+        for k2 in list(real):
+            mfw = re.match(r"^\(forward (with_\S+)\)$", real[k2])
+            if mfw:
+                real[k2] = real.get(mfw.group(1), "(opaque forward to a missing method)") if k2 == "set_" + mfw.group(1)[5:] else "(opaque forward to another field)"
         for item, msx in mb.items():
             key = item[2:] if item.startswith("r#") else item
             rsx = real.get(key)
